@@ -9,7 +9,7 @@
 From Coq Require Import Permutation Sorted.
 From V.Lib Require Import Base MachInt.
 From V.Gen Require Import C17Consts.
-From V.C17 Require Import Model Spec Corr Wf ProofsArith ProofsShuffle ProofsAnchor ProofsWake ProofsClassify ProofsCanon ProofsPerm ProofsWake2 Bridge.
+From V.C17 Require Import Model Spec Corr Wf ProofsArith ProofsShuffle ProofsAnchor ProofsWake ProofsClassify ProofsCanon ProofsPerm ProofsWake2 ProofsShift Bridge.
 Local Open Scope Z_scope.
 
 (* ------------------------------------------------------------------------------------------ *)
@@ -207,6 +207,45 @@ Theorem C17_earliest_saturation_gap_refuted :
   earliest_broadcast_height 144 4294967150 0 = u32_max /\
   forall b, anchor_ok 144 4294967150 0 u32_max b = false.
 Proof. exact earliest_saturation_gap. Qed.
+
+(* ------------------------------------------------------------------------------------------ *)
+(** * Schedule shifts (state.rs [shift_schedule] through the overdue re-spread) *)
+
+(** RE-DRAWN ANCHORS STAY ADMISSIBLE: after a shift, the boundary of a transfer whose proof is
+    still to come is never below its prior boundary (hence still above the activation height and
+    not before the funding note), and whenever the shifted schedule admits a boundary at all it is
+    one of them: a grid boundary strictly below the most recent boundary of the shifted schedule,
+    within the age cap ([shift_anchor_ok]); only when none exists is the prior boundary kept *)
+Theorem C17_shift_preserves_anchor_admissible : forall oc I delta, 0 < I <= u32_max ->
+  forall st tr sched ex prior ws q r,
+  0 <= delta -> stx_wf (st, tr, sched, ex, Some prior) -> (st = 0 \/ st = 1) -> tr = true ->
+  shift_tx oc I delta (st, tr, sched, ex, Some prior) ws = Ok (q, r) ->
+  exists b, q = (st, tr, sat_add_u32 sched delta, ex, Some b) /\ prior <= b /\
+            shift_anchor_ok I prior (sat_add_u32 sched delta) b = true.
+Proof. exact shift_preserves_anchor_admissible. Qed.
+
+(** every row after a shift passes the executable row checker: pending rows move by delta
+    (saturating), in-flight and mined rows do not move, expiries are untouched, proved rows and
+    preparations keep their boundary *)
+Theorem C17_shift_all_ok : forall oc I delta, 0 < I <= u32_max -> forall txs ws post r,
+  0 <= delta -> Forall stx_wf txs -> shift_all oc I delta txs ws = Ok (post, r) ->
+  forall2b (tx_shift_ok I delta) txs post = true /\ Forall stx_wf post /\ exists pre, ws = pre ++ r.
+Proof. exact shift_all_ok. Qed.
+
+(** the overdue re-spread: a lag beyond the tolerance shifts by exactly the lag, a smaller one
+    changes nothing *)
+Theorem C17_advance_overdue_ok : forall oc I served pre ws post r,
+  0 < I <= u32_max -> Forall stx_wf pre ->
+  match pre with (_, _, s0, _, _) :: _ => s0 <= served | [] => True end ->
+  advance_overdue oc I served pre ws = Ok (post, r) ->
+  shift_ok I served pre post = true /\ Forall stx_wf post /\ exists p, ws = p ++ r.
+Proof. exact advance_overdue_ok. Qed.
+
+(** however many late wake-ups follow one another, no boundary ever moves down *)
+Theorem C17_shift_seq_anchor_monotone : forall oc I, 0 < I <= u32_max -> forall deltas txs ws post r,
+  Forall (fun d => 0 <= d) deltas -> Forall stx_wf txs ->
+  shift_seq oc I deltas txs ws = Ok (post, r) -> Forall2 anchor_le txs post /\ Forall stx_wf post.
+Proof. exact shift_seq_anchor_monotone. Qed.
 
 (* ------------------------------------------------------------------------------------------ *)
 (** * Sync wake-ups *)
